@@ -221,14 +221,14 @@ PROPS["C11"] = dict(
     lean=["SqlVerif.Props.C11", "SqlVerif.Props.C11Query"],
     namespaces=["SqlVerif.Props.C11", "SqlVerif.Props.C11Query"],
     required=["SqlVerif.Props.C11.script_concat", "SqlVerif.Props.C11.requires_separator",
-              "SqlVerif.Props.C11.end_keyword_drops_tail", "SqlVerif.Props.C11.parseSelect_local",
+              "SqlVerif.Props.C11.end_keyword_drops_tail", "SqlVerif.Props.C11.script_requires_separator", "SqlVerif.Props.C11.parseSelect_local",
               "SqlVerif.Props.C11Query.query_yield",
               "SqlVerif.Props.C11Query.query_local",
               "SqlVerif.Props.C11Query.script_concat_queries"],
     corr=["stmts", "queries"],
     unique_output={"stmts": False, "queries": False},
     oracle=["C11"],
-    level_text="Proved in Lean for every token type and every statement parser that is local on the statements of the script (followed by EOF or `;` it consumes exactly the statement): the statements loop returns exactly [a1..an] for the script `;* s1 ;+ s2 ;+ ... sn ;*` (any separator layout, empty statements, leading/trailing `;`); a statement not followed by `;`/EOF/END is an error; the END-keyword break (a deviation: the tail after END is dropped) is proved as such and kept visible. The loop model is tied to parse_statements by an exhaustive differential (all token sequences up to length 6/7 over SELECT/number/`;`/END/`)`/whitespace). Locality of the real statement parsers is not a theorem: it is searched on the real code for every corpus statement kind x dialect x followers {SELECT 1, itself, COMMIT} x layouts. For the query statements of the modelled fragment (Model/Query.lean, tied to the real parse_statements by stream queries on real token lists, 13 dialects, both option values, recursion limits 0-9 and 50) locality is no longer a hypothesis: query_local proves, for every configuration, fuel and limit, that a statement text the model accepts completely is parsed to the same tree and left exactly in front of a following `;` (every function of the Pratt model and of the query model repeats a successful run when `; ...` is appended: two simultaneous fuel inductions), and script_concat_queries instantiates the loop theorem with the real loop model and the real token classification.",
+    level_text="Proved in Lean for every token type and every statement parser that is local on the statements of the script (followed by EOF or `;` it consumes exactly the statement): the statements loop returns exactly [a1..an] for the script `;* s1 ;+ s2 ;+ ... sn ;*` (any separator layout, empty statements, leading/trailing `;`); a statement not followed by `;`/EOF is an error (script_requires_separator); the END-keyword break exists only in block bodies (BEGIN .. END of CREATE PROCEDURE, end_keyword_drops_tail) since the repair of the END tail-drop (fix cc0dcb4), and the script classes of the models have isEndKw = false. The loop model is tied to parse_statements by an exhaustive differential (all token sequences up to length 6/7 over SELECT/number/`;`/END/`)`/whitespace). Locality of the real statement parsers is not a theorem: it is searched on the real code for every corpus statement kind x dialect x followers {SELECT 1, itself, COMMIT} x layouts. For the query statements of the modelled fragment (Model/Query.lean, tied to the real parse_statements by stream queries on real token lists, 13 dialects, both option values, recursion limits 0-9 and 50) locality is no longer a hypothesis: query_local proves, for every configuration, fuel and limit, that a statement text the model accepts completely is parsed to the same tree and left exactly in front of a following `;` (every function of the Pratt model and of the query model repeats a successful run when `; ...` is appended: two simultaneous fuel inductions), and script_concat_queries instantiates the loop theorem with the real loop model and the real token classification.",
     level_note="Trusted: Lean kernel; hand-written loop model (validated exhaustively on short sequences); locality of each real statement parser is a hypothesis, checked by the follower oracle on corpus texts only. COPY ... FROM STDIN is excluded as the property says.",
     technique="Lean 4 loop theorem under a locality hypothesis + exhaustive loop differential + follower oracle over every corpus statement kind",
     trusted_base=["Model/Stmts.lean mirrors parse_statements"],
@@ -386,7 +386,7 @@ PROPS["C05"] = dict(
     required=["SqlVerif.Props.C05.content_preserved_partial", "SqlVerif.Props.C05.content_preserved_expr",
               "SqlVerif.Props.C05.keywords_are_not_content", "SqlVerif.Props.C05.content_excluded_escape_word",
               "SqlVerif.Props.C05.content_excluded_quoted_placeholder", "SqlVerif.Props.C05.loop_run",
-              "SqlVerif.Props.C05.loop_consumes_all", "SqlVerif.Props.C05.no_statement_only_at_eof",
+              "SqlVerif.Props.C05.loop_consumes_all", "SqlVerif.Props.C05.script_consumes_all", "SqlVerif.Props.C05.no_statement_only_at_eof",
               "SqlVerif.Props.C05Query.query_content_preserved_partial",
               "SqlVerif.Props.C05Query.query_content_preserved_stmt",
               "SqlVerif.Props.C05Query.content_reordered_limit_comma",
@@ -394,7 +394,7 @@ PROPS["C05"] = dict(
     corr=["exprprint", "stmts", "queries"],
     unique_output={"exprprint": False, "stmts": False, "queries": False},
     oracle=["C05"],
-    level_text="Partial. Proved in Lean on the models of the Pratt expression parser and of Display for the same fragment (see C01), for EVERY configuration record, fuel, limit, context precedence and token list: if the parser accepts a prefix of the input and returns a printable tree e, the SEQUENCE (hence the multiset) of content tokens - identifiers with their quoting, numbers, string payloads, placeholders, the Content of the whole-grammar oracle - of the consumed prefix is exactly that of the printed token list of e: nothing lost, nothing invented, nothing reordered. It follows from yield (the tree holds exactly the consumed tokens, C04) and from the printer emitting the stored tokens one by one up to keyword spelling (second fuel induction, shared with C01). The two printable-excluded shapes that do change the content on the current code are kernel-checked witnesses: the bare-word operand of ESCAPE comes back as a string literal, the quotes of a quoted placeholder name (:\"x\") are dropped. For the statements loop (model of parse_statements, tied by stream stmts): a run that returns Ok is a derivation in which every token is consumed by a separator skip or handed to the statement parser, and Ok is returned only when nothing but separators is left or - the END deviation kept visible (C11 end_keyword_drops_tail) - directly after a complete statement at a word whose keyword is END, everything after it being dropped. Ties: stream exprprint (real to_string vs model text; printed tokens vs the real tokenizer) and stream stmts. The whole grammar is decided by the content-bag oracle on the real code: for every accepted corpus (text, dialect) pair the bag of content tokens of the input (real tokenizer) equals that of the printed parse. Query fragment (models of parse_statement / parse_query / parse_select … and of Display for Query / Select / joins, tied by stream queries): for every configuration, fuel, limit and token list, if the modelled statement parser accepts a prefix and returns a printable query, the sequence of content tokens of the consumed prefix is exactly that of the printed token list (query_content_preserved_partial: yield for the query layer plus a second fuel induction; Display drops ALL / OUTER / INNER / trailing commas / LIMIT ALL, adds AS and respells keywords, none of which is content); printable excludes non-printable expressions and the two clause orders that Display reorders (`LIMIT a, b`, `OFFSET a LIMIT b`), for which the reordering is a kernel-checked witness (same bag, other order).",
+    level_text="Partial. Proved in Lean on the models of the Pratt expression parser and of Display for the same fragment (see C01), for EVERY configuration record, fuel, limit, context precedence and token list: if the parser accepts a prefix of the input and returns a printable tree e, the SEQUENCE (hence the multiset) of content tokens - identifiers with their quoting, numbers, string payloads, placeholders, the Content of the whole-grammar oracle - of the consumed prefix is exactly that of the printed token list of e: nothing lost, nothing invented, nothing reordered. It follows from yield (the tree holds exactly the consumed tokens, C04) and from the printer emitting the stored tokens one by one up to keyword spelling (second fuel induction, shared with C01). The two printable-excluded shapes that do change the content on the current code are kernel-checked witnesses: the bare-word operand of ESCAPE comes back as a string literal, the quotes of a quoted placeholder name (:\"x\") are dropped. For the statements loop (model of parse_statements, tied by stream stmts): a run that returns Ok is a derivation in which every token is consumed by a separator skip or handed to the statement parser, and for a script (script_consumes_all: a class that never recognises END, as the top-level loop since fix cc0dcb4) Ok is returned only when nothing but separators is left; only a block body (BEGIN .. END) stops directly after a complete statement at the keyword END. Ties: stream exprprint (real to_string vs model text; printed tokens vs the real tokenizer) and stream stmts. The whole grammar is decided by the content-bag oracle on the real code: for every accepted corpus (text, dialect) pair the bag of content tokens of the input (real tokenizer) equals that of the printed parse. Query fragment (models of parse_statement / parse_query / parse_select … and of Display for Query / Select / joins, tied by stream queries): for every configuration, fuel, limit and token list, if the modelled statement parser accepts a prefix and returns a printable query, the sequence of content tokens of the consumed prefix is exactly that of the printed token list (query_content_preserved_partial: yield for the query layer plus a second fuel induction; Display drops ALL / OUTER / INNER / trailing commas / LIMIT ALL, adds AS and respells keywords, none of which is content); printable excludes non-printable expressions and the two clause orders that Display reorders (`LIMIT a, b`, `OFFSET a LIMIT b`), for which the reordering is a kernel-checked witness (same bag, other order).",
     level_note="Trusted: Lean kernel (axioms propext, Classical.choice, Quot.sound); the hand-written parser, printer and loop models (validated by the differentials on generated inputs only). The theorem is at token level (printed tokens, not re-lexed text; see C01 for the text-level witnesses). Not a theorem: statement parsers (error-discarding sites that do not restore the cursor such as parse_identifier(..).ok(), greedy SHOW/identifier lists, quoted type modifiers): decided by the oracle only; failures there are findings with the statement variant and lost/invented token kind as signature.",
     technique="Lean 4 proof (content sequence preserved: corollary of yield and of the printer-faithfulness induction; derivation-style characterisation of the statements loop) + kernel-decided witnesses for the excluded shapes + Display / statements-loop differentials + whole-grammar content-bag oracle",
     trusted_base=EXPRPRINT_TB + ["Model/Stmts.lean mirrors parse_statements"],
@@ -415,13 +415,14 @@ PROPS["C18"] = dict(
               "SqlVerif.Props.C18.string_modifier_spelling_lexes_back_partial",
               "SqlVerif.Props.C18.custom_string_modifier_roundtrips_lexer_partial",
               "SqlVerif.Props.C18.custom_string_modifier_backslash_quote_breaks",
+              "SqlVerif.Props.C18.custom_quoted_word_modifier_quote_breaks",
               "SqlVerif.Props.C18.handbuilt_modifier_splits", "SqlVerif.Props.C18.handbuilt_empty_modifier_vanishes",
               "SqlVerif.Props.C18.datetime64_zone_quote_breaks", "SqlVerif.Props.C18.fullStatement_false"],
     corr=["dtparse", "dtprint"],
     unique_output={"dtparse": False, "dtprint": False},
     oracle=["C18"],
-    level_text="Proved in Lean on a hand-written executable model of data-type printing and parsing (DT mirrors enum DataType constructor by constructor; printDT = the token sequence of Display for DataType after the lexer has merged adjacent `>` into `>>` - or into ONE custom operator for three or more where `>` is an operator character, i.e. PostgreSQL; parseDT mirrors parse_data_type / parse_data_type_helper branch by branch with the recursion guard, the MatchedTrailingBracket bookkeeping of expect_closing_angle_bracket, parse_struct_type_def, parse_struct_field_def, the DuckDB STRUCT(..)/UNION(..), ClickHouse Map/Tuple/Nested/Nullable/LowCardinality/Array(..)/FixedString/DateTime64 forms, ENUM/SET label lists, custom names with modifiers, the [] / [n] suffix loop and every dialect_of! test), for EVERY configuration record (the 13 dialects are instances), every environment, every fuel >= size t and recursion depth >= nesting depth, and UNBOUNDED nesting: (dt_roundtrip) parseDT (printDT t ++ rest) = ok (t, rest) for every Producible t and every follower that cannot extend the type, with the three contexts of the property as corollaries (alone; before `)` = CAST and last column; before `,` = column followed by a column); (closing_brackets_balance) the lexer regroups every maximal run of closing brackets on its total length, whatever the nesting, and (helper_roundtrip) the helper returns the value, the trailing-bracket flag `odd number of own closers and at least one outer closer` and exactly the unconsumed closers; (dt_yield, print_injective) the consumed prefix is the print of the result and different types print differently. Producible is a decidable predicate: which constructor exists under which dialect, numbers within u64, non-empty label lists, a custom name that is no type keyword of the dialect, modifiers lexing to one word, number or single-quoted string token that the parser stores back as the modifier itself (a string literal is stored in its SQL spelling, quotes included and embedded quotes doubled, since the fix 085e5ea), unnamed struct/tuple fields not starting with two words, and three exclusions that are DEFECTS of the code, each with a kernel-checked witness: a [] suffix after an even number of closing angle brackets (ARRAY<ARRAY<INT>>[] comes back as ARRAY<ARRAY<INT>[]>), an angle-bracket struct closed by the second half of `>>` in front of a comma (`unmatched > in STRUCT definition`), three or more closers under PostgreSQL (`>>>` is one operator token); custom modifiers: (string_modifier_stored_as_spelling) `foo('..')` is stored as the spelling for every payload, (custom_string_modifier_roundtrips) a string modifier whose spelling lexes to one string token of the same spelling comes back - `foo('a b')`, `foo('')`, and the doubled-quote quirk of the quote-doubling printer (`foo('a''''b')`) included - for every configuration, name and follower, and (string_modifier_spelling_lexes_back_partial, custom_string_modifier_roundtrips_lexer_partial) that lexing condition is discharged through the tokenizer model of C09 for every payload satisfying C06's CleanQ under any dialect row; further witnesses: a string modifier with a backslash in front of a quote (`foo('a\\''b')` without backslash escapes) is stored as `'a\\'b'`, which does not lex (residual defect of the quote-doubling printer), hand-built modifier texts that are no single token split or vanish (Display prints modifiers verbatim; such values are not Producible and the parser never returns them), a quote in a DateTime64 zone ends the literal (through the tokenizer model); the unrestricted statement is proved FALSE. Tie: stream dtparse (real parse_data_type on real token vectors vs parseDT: 73 type keywords x 100 parameter/field tails, custom names, the nesting grid to depth 2/3 over 18 wrappers incl. `> >` spellings, truncations / deletions / replacements, the recursion-limit ladder, random nestings; x 13 dialects; values as S-expressions, error messages incl. the found token) and stream dtprint (AST-first: DataType values built directly, every constructor x parameter combination x nesting, real to_string() lexed by the real tokenizer vs printDT). Direct oracle on the real code: every value the real parser produces on the spelling corpus or reproduces from its own print, per dialect, stand-alone / as first of two columns / inside CAST.",
-    level_note="Trusted: Lean kernel (axioms propext, Classical.choice, Quot.sound); the hand-written model (Model/DataType.lean), validated by the two differentials on generated inputs only; dialect_of! modelled as a test on the built-in dialect's name; Gen/Keywords.lean, Gen/Reserved.lean, Gen/Dialects.lean as dumped from the running crate (keyword classes, RESERVED_FOR_COLUMN_ALIAS, delimiter / custom-operator characters). Partial by design: the model is at TOKEN level - identifiers, ENUM/SET labels and the DateTime64 zone are tokens, so `printing this payload yields text that lexes back to this token` is C06's theorem for payloads satisfying its predicates and is outside C18's theorem (dtprint answers UNSUPPORTED for payloads with quotes/backslashes/non-ASCII: about 3% of quick lines); custom modifiers are SQL text printed verbatim, i.e. through a parameter (the real tokens of each modifier text travel with each request); that the spelling of a string modifier lexes back to its one token is proved through the tokenizer model for CleanQ payloads and checked by dtprint for the rest. A Nested column is name + type only (collation/options: UNSUPPORTED, the full ColumnDef grammar belongs to C01). When a DuckDB STRUCT( body fails AND `)` is missing the real code reports the `)` error instead of the body's: the model answers UNSUPPORTED there (0.1% of dtparse lines). `<>` (an empty element inside angle brackets, only with DataType::Unspecified, never producible) is outside retok. The unrestricted property is FALSE on the current tree; every failing (constructor, context, kind) found by the oracle is a known finding, anything else a violation.",
+    level_text="Proved in Lean on a hand-written executable model of data-type printing and parsing (DT mirrors enum DataType constructor by constructor; printDT = the token sequence of Display for DataType after the lexer has merged adjacent `>` into `>>` - or into ONE custom operator for three or more where `>` is an operator character, i.e. PostgreSQL; parseDT mirrors parse_data_type / parse_data_type_helper branch by branch with the recursion guard, the MatchedTrailingBracket bookkeeping of expect_closing_angle_bracket, parse_struct_type_def, parse_struct_field_def, the DuckDB STRUCT(..)/UNION(..), ClickHouse Map/Tuple/Nested/Nullable/LowCardinality/Array(..)/FixedString/DateTime64 forms, ENUM/SET label lists, custom names with modifiers, the [] / [n] suffix loop and every dialect_of! test), for EVERY configuration record (the 13 dialects are instances), every environment, every fuel >= size t and recursion depth >= nesting depth, and UNBOUNDED nesting: (dt_roundtrip) parseDT (printDT t ++ rest) = ok (t, rest) for every Producible t and every follower that cannot extend the type, with the three contexts of the property as corollaries (alone; before `)` = CAST and last column; before `,` = column followed by a column); (closing_brackets_balance) the lexer regroups every maximal run of closing brackets on its total length, whatever the nesting, and (helper_roundtrip) the helper returns the value, the trailing-bracket flag `odd number of own closers and at least one outer closer` and exactly the unconsumed closers; (dt_yield, print_injective) the consumed prefix is the print of the result and different types print differently. Producible is a decidable predicate: which constructor exists under which dialect, numbers within u64, non-empty label lists, a custom name that is no type keyword of the dialect, modifiers lexing to one word, number or single-quoted string token that the parser stores back as the modifier itself (a string literal is stored in its SQL spelling, quotes included and embedded quotes doubled, since the fix 085e5ea), unnamed struct/tuple fields not starting with two words, and three exclusions that are DEFECTS of the code, each with a kernel-checked witness: a [] suffix after an even number of closing angle brackets (ARRAY<ARRAY<INT>>[] comes back as ARRAY<ARRAY<INT>[]>), an angle-bracket struct closed by the second half of `>>` in front of a comma (`unmatched > in STRUCT definition`), three or more closers under PostgreSQL (`>>>` is one operator token); custom modifiers: (string_modifier_stored_as_spelling) `foo('..')` is stored as the spelling for every payload, (custom_string_modifier_roundtrips) a string modifier whose spelling lexes to one string token of the same spelling comes back - `foo('a b')`, `foo('')`, and the doubled-quote quirk of the quote-doubling printer (`foo('a''''b')`) included - for every configuration, name and follower, and (string_modifier_spelling_lexes_back_partial, custom_string_modifier_roundtrips_lexer_partial) that lexing condition is discharged through the tokenizer model of C09 for every payload satisfying C06's CleanQ under any dialect row; further witnesses: a string modifier with a backslash in front of a quote (`foo('a\\''b')` without backslash escapes) is stored as `'a\\'b'`, which does not lex (residual defect of the quote-doubling printer), a quoted-word modifier with an embedded quote (`foo(\"a\"\"b\")`) is stored by Display for Word as `\"a\"b\"`, which does not lex either, hand-built modifier texts that are no single token split or vanish (Display prints modifiers verbatim; such values are not Producible and the parser never returns them), a quote in a DateTime64 zone ends the literal (through the tokenizer model); the unrestricted statement is proved FALSE. Tie: stream dtparse (real parse_data_type on real token vectors vs parseDT: 73 type keywords x 100 parameter/field tails, custom names, the nesting grid to depth 2/3 over 18 wrappers incl. `> >` spellings, truncations / deletions / replacements, the recursion-limit ladder, random nestings; x 13 dialects; values as S-expressions, error messages incl. the found token) and stream dtprint (AST-first: DataType values built directly, every constructor x parameter combination x nesting, real to_string() lexed by the real tokenizer vs printDT). Direct oracle on the real code: every value the real parser produces on the spelling corpus or reproduces from its own print, per dialect, stand-alone / as first of two columns / inside CAST.",
+    level_note="Trusted: Lean kernel (axioms propext, Classical.choice, Quot.sound); the hand-written model (Model/DataType.lean), validated by the two differentials on generated inputs only; dialect_of! modelled as a test on the built-in dialect's name; Gen/Keywords.lean, Gen/Reserved.lean, Gen/Dialects.lean as dumped from the running crate (keyword classes, RESERVED_FOR_COLUMN_ALIAS, delimiter / custom-operator characters). Partial by design: the model is at TOKEN level - identifiers, ENUM/SET labels and the DateTime64 zone are tokens, so `printing this payload yields text that lexes back to this token` is C06's theorem for payloads satisfying its predicates and is outside C18's theorem (dtprint answers UNSUPPORTED for payloads with quotes/backslashes/non-ASCII: about 4% of quick lines); custom modifiers are SQL text printed verbatim, i.e. through a parameter (the real tokens of each modifier text travel with each request); that the spelling of a string modifier lexes back to its one token is proved through the tokenizer model for CleanQ payloads and checked by dtprint for the rest. A Nested column is name + type only (collation/options: UNSUPPORTED, the full ColumnDef grammar belongs to C01). When a DuckDB STRUCT( body fails AND `)` is missing the real code reports the `)` error instead of the body's: the model answers UNSUPPORTED there (0.1% of dtparse lines). `<>` (an empty element inside angle brackets, only with DataType::Unspecified, never producible) is outside retok. The unrestricted property is FALSE on the current tree; every failing (constructor, context, kind) found by the oracle is a known finding, anything else a violation.",
     technique="Lean 4 proof (compositional real-token stream `emit`, bridge lemma to the lexer by mutual structural recursion, per-arm parser lemmas, strong induction on the size of the type with the `[]` suffix list as an accumulator) + kernel-decided negation witnesses + parse differential on real token vectors + AST-first print differential + direct three-context round-trip oracle on the real code",
     trusted_base=["Display coverage inventory (translator/display.rs): the set of AST fields that no Display body mentions is compared with the committed expectation; a field that stops being printed is an open obligation", "Display coverage inventory (translator/display.rs): the set of AST fields that no Display body mentions is compared with the committed expectation; a field that stops being printed is an open obligation", "Model/DataType.lean mirrors src/ast/data_type.rs (Display) and src/parser/mod.rs parse_data_type* / parse_struct_* / parse_union_type_def / parse_click_house_* / parse_optional_* / parse_string_values / parse_object_name / parse_identifier by hand",
                   "dialect_of! is modelled as a test on the built-in dialect's name; Parser::new options (trailing_commas = supports_trailing_commas)",
